@@ -1,4 +1,397 @@
-import CTM.Model.Tree
+/-
+  C10 — the taxonomy stays a strict tree under construction and transformation.
+
+  Theorems about the executable model `CTM/Model/Tree.lean` (which mirrors
+  taxonomy/utils.py + taxonomy/taxonomy_tree.py of cell_type_mapper), for ALL
+  trees: no bound on depth, width or number of rows.
+
+  Vocabulary (CTM/Lemmas/TreeDefs.lean):
+    `DictOK t`  every Python dict of the tree has distinct keys
+    `WF t`      `validate t = .ok ()`, `t.hierarchy.Nodup`, `t.hierarchy ≠ []`, `DictOK t`
+    `(pl, cl) ∈ levelPairs t.hierarchy`   cl is the level right below pl
+    `t.level l` the dict of level l (association list node ↦ children / rows),
+    `t.nodesAt l` its keys, `t.entry l n` = `tree[l][n]`
+-/
+import CTM.Lemmas.Tree
+
 namespace CTM.C10
-theorem placeholder_true : True := trivial
+open CTM CTM.RawTree
+
+/-! ### a concrete tree for the non-vacuity examples
+
+levels 0 > 1 > 2 (2 = leaf level); nodes 10,11 / 20,21,22 / 30..33; rows 0..4 -/
+def exTree : RawTree :=
+  { hierarchy := [0, 1, 2]
+    levels := [(1, [(21, [31, 32]), (20, [30]), (22, [33])]),
+               (0, [(10, [21, 20]), (11, [22])]),
+               (2, [(30, [0]), (31, [1, 2]), (32, []), (33, [4, 3])])] }
+
+theorem exTree_wf_test : WF exTree :=
+  ⟨by rfl, by decide, by decide, dictOK_of_b (by decide)⟩
+
+/-! ### the validator -/
+
+/-- *"A taxonomy is accepted only if every node below the top level has exactly
+one parent, every listed child exists and no reference cell belongs to two
+leaves"* — for every accepted tree (Python dicts have distinct keys), and every
+pair of adjacent levels `pl > cl`:
+ 1. every listed child is a key of the next level;
+ 2. every node of `cl` is listed exactly once in all the child lists of `pl`
+    together (one parent, listed once);
+ 3. that parent is unique as a node: `∃! p`;
+and no row occurs twice in the leaf level's row lists (neither in two leaves
+nor twice in one); the level keys are exactly the hierarchy. -/
+theorem validate_sound (t : RawTree) (d : DictOK t) (hv : t.validate = .ok ()) :
+    (∀ pl cl, (pl, cl) ∈ levelPairs t.hierarchy →
+      (∀ p, p ∈ t.nodesAt pl → ∀ c, c ∈ t.entry pl p → c ∈ t.nodesAt cl) ∧
+      (∀ c, c ∈ t.nodesAt cl → ((t.level pl).flatMap (·.2)).count c = 1) ∧
+      (∀ c, c ∈ t.nodesAt cl → ∃ p, (p ∈ t.nodesAt pl ∧ c ∈ t.entry pl p) ∧
+          ∀ p', (p' ∈ t.nodesAt pl ∧ c ∈ t.entry pl p') → p' = p)) ∧
+    t.allRows.Nodup ∧
+    (∀ k, k ∈ t.levels.map (·.1) ↔ k ∈ t.hierarchy) := by
+  have s := strict_of_validate hv
+  refine ⟨fun pl cl hpc => ?_, s.rowsNodup, fun k => ⟨s.keysSub k, s.hierSub k⟩⟩
+  obtain ⟨i, hi, rfl, rfl⟩ := idx_of_mem_levelPairs hpc
+  refine ⟨fun p hp c hc => s.entry_sub hi hp hc, fun c hc => ?_, fun c hc => ?_⟩
+  · rw [flatMap_snd_eq_flatMap_entry d]
+    have hnd := s.children_nodup hi (d.nodesAt_nodup _) (fun _ h => h)
+    rw [hnd.count, if_pos ((s.children_perm_next d hi).mem_iff.2 hc)]
+  · obtain ⟨p, cs, hp, hcs⟩ := s.hasParent _ _ hpc c hc
+    have hpn : p ∈ t.nodesAt t.hierarchy[i] := mem_nodesAt.2 ⟨cs, hp⟩
+    have hce : c ∈ t.entry t.hierarchy[i] p := by rw [entry_of_mem d hp]; exact hcs
+    exact ⟨p, ⟨hpn, hce⟩, fun p' hp' => s.entry_disjoint hi hp'.1 hpn hp'.2 hce⟩
+
+example : exTree.validate = .ok () ∧ DictOK exTree := ⟨by rfl, dictOK_of_b (by decide)⟩
+
+/-- No reference cell belongs to two leaves, in the words of the statement. -/
+theorem validate_rows_one_leaf (t : RawTree) (d : DictOK t) (hne : t.hierarchy ≠ [])
+    (hv : t.validate = .ok ()) (n₁ n₂ : Node) (r : Nat)
+    (h₁ : n₁ ∈ t.nodesAt (t.hierarchy.getLast hne)) (h₂ : n₂ ∈ t.nodesAt (t.hierarchy.getLast hne))
+    (hr₁ : r ∈ t.entry (t.hierarchy.getLast hne) n₁) (hr₂ : r ∈ t.entry (t.hierarchy.getLast hne) n₂) :
+    n₁ = n₂ := by
+  have s := strict_of_validate hv
+  have hrows := s.rowsNodup
+  have hll : t.leafLevel = some (t.hierarchy.getLast hne) := by
+    simp [leafLevel, List.getLast?_eq_some_getLast hne]
+  simp only [allRows, hll] at hrows
+  rw [flatMap_snd_eq_flatMap_entry d] at hrows
+  unfold List.Nodup at hrows
+  rw [List.pairwise_flatMap] at hrows
+  have hp := hrows.2
+  exact if h : n₁ = n₂ then h else absurd rfl (pairwise_disj hp h₁ h₂ h hr₁ hr₂)
+where
+  pairwise_disj {l : List Node} {f : Node → List Nat}
+      (hp : l.Pairwise (fun a₁ a₂ => ∀ x, x ∈ f a₁ → ∀ y, y ∈ f a₂ → x ≠ y))
+      {a b : Node} (ha : a ∈ l) (hb : b ∈ l) (hab : a ≠ b) {r : Nat} (hra : r ∈ f a) (hrb : r ∈ f b) :
+      r ≠ r := by
+    induction l with
+    | nil => cases ha
+    | cons x xs ih =>
+      rw [List.pairwise_cons] at hp
+      rcases List.mem_cons.1 ha with rfl | ha'
+      · rcases List.mem_cons.1 hb with rfl | hb'
+        · exact absurd rfl hab
+        · exact hp.1 b hb' r hra r hrb
+      · rcases List.mem_cons.1 hb with rfl | hb'
+        · exact (hp.1 a ha' r hrb r hra)
+        · exact ih hp.2 ha' hb'
+
+/-- The validator decides exactly the strict-tree specification `Strict`
+(CTM/Lemmas/TreeDefs.lean: key set = hierarchy, string node names, every listed
+child exists, no orphan, no second parent, no repeated child, no repeated row):
+nothing less is accepted, and — for distinct level names — nothing more is
+demanded. -/
+theorem validate_iff_strict (t : RawTree) (hn : t.hierarchy.Nodup) :
+    t.validate = .ok () ↔ Strict t :=
+  validate_ok_iff hn
+
+example : exTree.hierarchy.Nodup := by decide
+
+/-! ### each one-edit corruption class is rejected
+
+`∃ e, t.validate = .error e` is `t.validate ≠ .ok ()`: which error class is
+reported depends on which test of the validator fires first. -/
+
+/-- a listed child that is not a key of the next level -/
+theorem validate_rejects_missing_child_key (t : RawTree) {pl cl : Level} {p c : Node}
+    {cs : List Node} (hm : (pl, cl) ∈ levelPairs t.hierarchy) (hp : (p, cs) ∈ t.level pl)
+    (hc : c ∈ cs) (hnot : c ∉ t.nodesAt cl) : ∃ e, t.validate = .error e :=
+  rejects_missing_child hm hp hc hnot
+
+example : ({ exTree with levels := exTree.levels.map (fun (l, m) =>
+    if l = 1 then (l, m.filter (fun e => e.1 != 20)) else (l, m)) } : RawTree).validate
+    = .error .missingChild := by rfl
+
+/-- a node below the top level that no parent lists -/
+theorem validate_rejects_orphan (t : RawTree) {pl cl : Level} {c : Node}
+    (hm : (pl, cl) ∈ levelPairs t.hierarchy) (hc : c ∈ t.nodesAt cl)
+    (hnot : ¬ ∃ p cs, (p, cs) ∈ t.level pl ∧ c ∈ cs) : ∃ e, t.validate = .error e :=
+  rejects_orphan hm hc hnot
+
+example : ({ exTree with levels := exTree.levels.map (fun (l, m) =>
+    if l = 1 then (l, m ++ [(29, [])]) else (l, m)) } : RawTree).validate
+    = .error .orphan := by rfl
+
+/-- a node listed by two different parents -/
+theorem validate_rejects_second_parent (t : RawTree) {pl cl : Level} {p₁ p₂ c : Node}
+    {cs₁ cs₂ : List Node} (hm : (pl, cl) ∈ levelPairs t.hierarchy) (h₁ : (p₁, cs₁) ∈ t.level pl)
+    (h₂ : (p₂, cs₂) ∈ t.level pl) (hc₁ : c ∈ cs₁) (hc₂ : c ∈ cs₂) (hne : p₁ ≠ p₂) :
+    ∃ e, t.validate = .error e :=
+  rejects_two_parents hm h₁ h₂ hc₁ hc₂ hne
+
+example : ({ exTree with levels := exTree.levels.map (fun (l, m) =>
+    if l = 0 then (l, [(10, [21, 20]), (11, [22, 20])]) else (l, m)) } : RawTree).validate
+    = .error .twoParents := by rfl
+
+/-- a parent that lists the same child twice (defect D5 of the pinned tree,
+fixed in /repo by the `fix:` commit; `validateWith false` is the old validator) -/
+theorem validate_rejects_repeated_child (t : RawTree) {pl cl : Level} {p : Node} {cs : List Node}
+    (hm : (pl, cl) ∈ levelPairs t.hierarchy) (hp : (p, cs) ∈ t.level pl) (hd : ¬ cs.Nodup) :
+    ∃ e, t.validate = .error e :=
+  rejects_repeated_child hm hp hd
+
+example : ({ exTree with levels := exTree.levels.map (fun (l, m) =>
+    if l = 0 then (l, [(10, [21, 20, 21]), (11, [22])]) else (l, m)) } : RawTree).validate
+    = .error .repeatedChild := by rfl
+
+/-- a reference row listed twice (in two leaves or twice in one) -/
+theorem validate_rejects_repeated_row (t : RawTree) (hd : ¬ t.allRows.Nodup) :
+    ∃ e, t.validate = .error e :=
+  rejects_dup_rows hd
+
+example : ({ exTree with levels := exTree.levels.map (fun (l, m) =>
+    if l = 2 then (l, [(30, [0]), (31, [1, 2]), (32, [1]), (33, [4, 3])]) else (l, m)) } : RawTree).validate
+    = .error .dupRows := by rfl
+
+/-- a level dict whose key is not in the hierarchy (stray key / a level the
+hierarchy no longer lists) -/
+theorem validate_rejects_stray_key (t : RawTree) (hh : t.hasHierarchy = true) {k : Level}
+    (hk : k ∈ t.levels.map (·.1)) (hnot : k ∉ t.hierarchy) : t.validate = .error .badKeys :=
+  rejects_stray_key hh hk hnot
+
+example : ({ exTree with hierarchy := [0, 1] } : RawTree).validate = .error .badKeys := by rfl
+
+/-- a hierarchy entry without a level dict (ghost level) -/
+theorem validate_rejects_ghost_level (t : RawTree) (hh : t.hasHierarchy = true) {k : Level}
+    (hk : k ∈ t.hierarchy) (hnot : k ∉ t.levels.map (·.1)) : t.validate = .error .badKeys :=
+  rejects_ghost_level hh hk hnot
+
+example : ({ exTree with hierarchy := [0, 1, 2, 7] } : RawTree).validate = .error .badKeys := by rfl
+
+/-- no `hierarchy` key at all -/
+theorem validate_rejects_no_hierarchy (t : RawTree) (h : t.hasHierarchy = false) :
+    t.validate = .error .noHierarchy :=
+  rejects_no_hierarchy h
+
+example : ({ exTree with hasHierarchy := false } : RawTree).validate = .error .noHierarchy := by rfl
+
+/-- a node name that is not a `str` -/
+theorem validate_rejects_non_str_node (t : RawTree) (hh : t.hasHierarchy = true)
+    (hk : t.keysMatch = true) (h : t.nodesAreStr = false) : t.validate = .error .nonStrNode :=
+  rejects_non_str_node hh hk h
+
+example : ({ exTree with nodesAreStr := false } : RawTree).validate = .error .nonStrNode := by rfl
+
+/-! ### leaves -/
+
+/-- *"the descendant leaves of a node's children partition the node's leaves"*:
+for a node `p` of a non-leaf level `pl` (children at level `cl`),
+ 1. the concatenated `as_leaves` lists of its children are a permutation of its
+    own `as_leaves` list (union, with multiplicity),
+ 2. which has no duplicate — so the children's lists are duplicate free and
+ 3. pairwise disjoint. -/
+theorem leaves_partition (t : RawTree) (w : WF t) {pl cl : Level}
+    (hpc : (pl, cl) ∈ levelPairs t.hierarchy) {p : Node} (hp : p ∈ t.nodesAt pl) :
+    ((t.entry pl p).flatMap (t.asLeaves cl)).Perm (t.asLeaves pl p) ∧
+    (t.asLeaves pl p).Nodup ∧
+    (t.entry pl p).Pairwise (fun c₁ c₂ => ∀ a, a ∈ t.asLeaves cl c₁ → a ∉ t.asLeaves cl c₂) := by
+  have s := strict_of_validate w.valid
+  obtain ⟨i, hi, rfl, rfl⟩ := idx_of_mem_levelPairs hpc
+  have hperm := asLeaves_perm_children w.hNodup hi p
+  have hnd := asLeaves_nodup s w.hNodup (by omega) hp
+  refine ⟨hperm.symm, hnd, ?_⟩
+  have h2 := hperm.nodup hnd
+  unfold List.Nodup at h2
+  rw [List.pairwise_flatMap] at h2
+  exact h2.2.imp (fun h a ha hb => h a ha a hb rfl)
+
+example : exTree.asLeaves 0 10 = [30, 31, 32] ∧ exTree.entry 0 10 = [21, 20] ∧
+    exTree.asLeaves 1 21 = [31, 32] ∧ exTree.asLeaves 1 20 = [30] := by decide
+
+/-- At every level the `as_leaves` lists of the level's nodes partition the
+leaf level: every leaf lies under exactly one node of each level. -/
+theorem leaves_partition_level (t : RawTree) (w : WF t) {l : Level} (hl : l ∈ t.hierarchy) :
+    ((t.nodesAt l).flatMap (t.asLeaves l)).Perm (t.nodesAt (t.hierarchy.getLast w.hNe)) ∧
+    (t.nodesAt (t.hierarchy.getLast w.hNe)).Nodup := by
+  have s := strict_of_validate w.valid
+  obtain ⟨i, hi, rfl⟩ := List.mem_iff_getElem.1 hl
+  have := asLeaves_cover s w.dict w.hNodup hi
+  rw [List.getLast_eq_getElem]
+  exact ⟨this, w.dict.nodesAt_nodup _⟩
+
+example : (exTree.nodesAt 0).flatMap (exTree.asLeaves 0) = [30, 31, 32, 33] ∧
+    exTree.nodesAt 2 = [30, 31, 32, 33] := by decide
+
+/-! ### parents and children -/
+
+/-- *"parent and child queries are mutually inverse"*: for adjacent levels
+`pl > cl`, `c` is among `children(pl, p)` iff `parents(cl, c)[pl] == p`, iff the
+child→parent table maps `c` to `p`. -/
+theorem parent_child_inverse (t : RawTree) (w : WF t) {pl cl : Level}
+    (hpc : (pl, cl) ∈ levelPairs t.hierarchy) (p c : Node) (cs : List Node)
+    (hcs : t.children (some (pl, p)) = .ok cs) :
+    (c ∈ cs ↔ (t.parents cl c).lookup pl = some p) ∧
+    (c ∈ cs ↔ t.childToParent cl c = some p) := by
+  have s := strict_of_validate w.valid
+  obtain ⟨i, hi, rfl, rfl⟩ := idx_of_mem_levelPairs hpc
+  have hpn := (children_some_ok_iff.1 hcs).2
+  obtain ⟨hpn, rfl⟩ := hpn
+  have h2 : c ∈ t.entry t.hierarchy[i] p ↔ t.childToParent t.hierarchy[i+1] c = some p := by
+    rw [childToParent_eq_some_iff s w.hNodup hi, isChild_iff w.dict]
+    exact ⟨fun h => ⟨hpn, h⟩, fun h => h.2⟩
+  refine ⟨?_, h2⟩
+  rw [h2]
+  cases hq : t.childToParent t.hierarchy[i+1] c with
+  | none =>
+    have : t.parents t.hierarchy[i+1] c = [] := by
+      unfold parents
+      obtain ⟨f, hf⟩ : ∃ f, t.hierarchy.length = f + 1 := ⟨t.hierarchy.length - 1, by omega⟩
+      rw [hf]
+      simp [parentsAux, parentLevel_succ w.hNodup hi, hq]
+    simp [this]
+  | some q =>
+    rw [parents_succ' s w.hNodup hi hq]
+    simp [List.lookup]
+
+example : exTree.children (some (0, 10)) = .ok [21, 20] ∧
+    (exTree.parents 1 21).lookup 0 = some 10 ∧ exTree.parents 2 31 = [(1, 21), (0, 10)] := by decide
+
+/-- Every node below the top level has exactly one parent, `parents` lists one
+ancestor for each level above (nearest first) and the node is among the
+children of its parent. -/
+theorem parents_total (t : RawTree) (w : WF t) {pl cl : Level}
+    (hpc : (pl, cl) ∈ levelPairs t.hierarchy) {c : Node} (hc : c ∈ t.nodesAt cl) :
+    ∃ p, t.childToParent cl c = some p ∧ p ∈ t.nodesAt pl ∧ c ∈ t.entry pl p ∧
+      t.parents cl c = (pl, p) :: t.parents pl p := by
+  have s := strict_of_validate w.valid
+  obtain ⟨i, hi, rfl, rfl⟩ := idx_of_mem_levelPairs hpc
+  obtain ⟨p, hp, hpm⟩ := childToParent_isSome s w.hNodup hi hc
+  refine ⟨p, hp, hpm, ?_, parents_succ s w.hNodup hi hc hp⟩
+  exact ((isChild_iff w.dict).1 ((childToParent_eq_some_iff s w.hNodup hi c p).1 hp)).2
+
+/-- the levels listed by `parents(l, n)` are exactly the levels above `l`,
+nearest first -/
+theorem parents_levels_above (t : RawTree) (w : WF t) {i : Nat} (hi : i < t.hierarchy.length)
+    {n : Node} (hmem : n ∈ t.nodesAt t.hierarchy[i]) :
+    (t.parents t.hierarchy[i] n).map (·.1) = (t.hierarchy.take i).reverse :=
+  parents_levels (strict_of_validate w.valid) w.hNodup i hi n hmem
+
+/-! ### leaf pairs to discriminate -/
+
+/-- *"The leaf pairs to be discriminated under a parent are exactly the
+unordered pairs of leaves lying under two different children of that parent,
+each listed once."*  `parent = none` is the root (children = the top-level
+nodes); `sibs` are the children of the parent, `cl` the level they live at.
+The list returned by `leaves_to_compare(parent)` has no duplicate, and `(a, b)`
+is in it iff `a < b` and `a`, `b` lie under two different children. -/
+theorem pairs_exact (t : RawTree) (w : WF t) (parent : Option (Level × Node))
+    (sibs : List Node) (cl : Level) (hs : t.children parent = .ok sibs)
+    (hcl : t.levelUnder parent = some cl) :
+    (t.leafPairs parent).Nodup ∧
+    ∀ a b, (a, b) ∈ t.leafPairs parent ↔
+      a < b ∧ ∃ s₀ s₁, s₀ ∈ sibs ∧ s₁ ∈ sibs ∧ s₀ ≠ s₁ ∧
+        a ∈ t.asLeaves cl s₀ ∧ b ∈ t.asLeaves cl s₁ := by
+  have s := strict_of_validate w.valid
+  have hlen := List.length_pos_iff.2 w.hNe
+  -- in both cases the pairs are `crossPairs` over duplicate-free disjoint leaf lists
+  suffices h : t.leafPairs parent = crossPairs (t.asLeaves cl) sibs ∧
+      (sibs.flatMap (t.asLeaves cl)).Nodup by
+    rw [h.1]
+    exact ⟨crossPairs_nodup _ _ h.2, fun a b => mem_crossPairs _ _ h.2 a b⟩
+  cases parent with
+  | none =>
+    have h0 : t.hierarchy.head? = some t.hierarchy[0] := by
+      rw [List.head?_eq_getElem?]; exact List.getElem?_eq_getElem hlen
+    simp only [levelUnder, h0, Option.some.injEq] at hcl
+    subst hcl
+    simp only [children, h0] at hs
+    cases hs
+    exact ⟨leafPairs_root _ h0,
+      asLeaves_flatMap_nodup s w.hNodup hlen (w.dict.nodesAt_nodup _) (fun _ h => h)⟩
+  | some ln =>
+    obtain ⟨l, n⟩ := ln
+    simp only [levelUnder] at hcl
+    have hln := children_some_ok_iff.1 hs
+    have hln : l ∈ t.hierarchy ∧ n ∈ t.nodesAt l ∧ sibs = t.entry l n :=
+      ⟨s.keysSub l hln.1, hln.2⟩
+    obtain ⟨hl, hnm, rfl⟩ := hln
+    obtain ⟨i, hi, rfl⟩ := List.mem_iff_getElem.1 hl
+    rw [childLevel_getElem w.hNodup hi] at hcl
+    have hi1 : i + 1 < t.hierarchy.length := by
+      rcases Nat.lt_or_ge (i+1) t.hierarchy.length with h | h
+      · exact h
+      · rw [List.getElem?_eq_none h] at hcl; cases hcl
+    rw [List.getElem?_eq_getElem hi1] at hcl
+    cases hcl
+    have hleaf : (some t.hierarchy[i] == t.leafLevel) = false := by
+      rw [leafLevel_eq w.hNe]
+      simp only [beq_eq_false_iff_ne, ne_eq, Option.some.injEq]
+      intro he
+      have := (List.getElem_inj w.hNodup).1 he
+      omega
+    refine ⟨leafPairs_node n hleaf (by rw [childLevel_getElem w.hNodup hi]; exact List.getElem?_eq_getElem hi1), ?_⟩
+    exact asLeaves_flatMap_nodup s w.hNodup hi1 (s.entry_nodup hi1 hnm)
+      (fun c hc => s.entry_sub hi1 hnm hc)
+
+example : exTree.leafPairs none = [(30, 33), (31, 33), (32, 33)] ∧
+    exTree.leafPairs (some (0, 10)) = [(30, 31), (30, 32)] ∧
+    exTree.children (some (0, 10)) = .ok [21, 20] ∧ exTree.levelUnder (some (0, 10)) = some 1 := by
+  decide
+
+/-- each unordered pair is listed exactly once (count form of `pairs_exact`) -/
+theorem pairs_count (t : RawTree) (w : WF t) (parent : Option (Level × Node))
+    (sibs : List Node) (cl : Level) (hs : t.children parent = .ok sibs)
+    (hcl : t.levelUnder parent = some cl) (a b : Node) :
+    (t.leafPairs parent).count (a, b) ≤ 1 ∧ (t.leafPairs parent).count (b, a) ≤ 1 ∧
+    ((a, b) ∈ t.leafPairs parent → (b, a) ∉ t.leafPairs parent) := by
+  obtain ⟨hnd, hmem⟩ := pairs_exact t w parent sibs cl hs hcl
+  refine ⟨List.nodup_iff_count.1 hnd _, List.nodup_iff_count.1 hnd _, fun h1 h2 => ?_⟩
+  have hab := ((hmem a b).1 h1).1
+  have hba := ((hmem b a).1 h2).1
+  exact Nat.lt_irrefl _ (Nat.lt_trans hab hba)
+
+/-- no pair for a parent with a single child -/
+theorem pairs_single_child (t : RawTree) (parent : Option (Level × Node)) (c : Node)
+    (hs : t.children parent = .ok [c]) : t.leafPairs parent = [] := by
+  cases parent with
+  | none =>
+    obtain ⟨l0, h0, he⟩ := children_none_ok_iff.1 hs
+    rw [leafPairs_root l0 h0, ← he]
+    rfl
+  | some ln =>
+    obtain ⟨l, n⟩ := ln
+    obtain ⟨_, _, he⟩ := children_some_ok_iff.1 hs
+    simp only [leafPairs]
+    split
+    · rfl
+    · rename_i cl sibs hsome
+      split at hsome
+      · cases hsome
+      · cases hc : t.childLevel l with
+        | none => simp [hc] at hsome
+        | some cl' =>
+          simp only [hc, Option.map_some, Option.some.injEq, Prod.mk.injEq] at hsome
+          obtain ⟨_, rfl⟩ := hsome
+          simp [← he, combos2]
+
+example : exTree.children (some (0, 11)) = .ok [22] ∧ exTree.leafPairs (some (0, 11)) = [] := by
+  decide
+
+/-- no pair at the leaf level -/
+theorem pairs_leaf_level (t : RawTree) (l : Level) (n : Node) (hl : t.leafLevel = some l) :
+    t.leafPairs (some (l, n)) = [] :=
+  leafPairs_leaf n hl
+
+example : exTree.leafLevel = some 2 ∧ exTree.leafPairs (some (2, 31)) = [] := by decide
+
 end CTM.C10
